@@ -235,6 +235,18 @@ class ObjInterp(fd.Interp):
                 return recv[0]
             if short in ('begin', 'end', 'cbegin', 'cend'):
                 return ('iter', id(recv), short)
+            if short in ('reserve', 'shrink_to_fit'):
+                return None
+            if short == 'pop_back':
+                recv.pop()
+                return None
+            if short == 'resize':
+                nn = self.ev(a[0], env)
+                fill = self.ev(a[1], env) if len(a) > 1 else None
+                del recv[nn:]
+                while len(recv) < nn:
+                    recv.append(fill)
+                return None
         if c.startswith('std::') and short in ('operator bool',) and n['ch']:
             v = self.ev(n['ch'][0], env)
             return v is not None
